@@ -183,7 +183,7 @@ class C09(Check):
             return
         out.count('wellposed_status0')
         t = np.asarray(s.breakpoints, dtype='f8')
-        A = BR.basis_matrix(t, k, x)
+        A = BR.basis_matrix(t, k, x, extrapolate=True)
         c, rank, sv = BR.wls(A, y, w)
         ys = max(float(np.abs(y).max()), 1e-300)
         fit_ref = A @ c
